@@ -2,11 +2,11 @@ CONFIG = {
     "props": "props/C02.v",
     "runner": {"module": "Verif.model.C02Check", "ident": "check"},
     "harness": [{
-        "name": "c02", "pkg": "./agreement/", "run": "^TestVerifC02$",
-        "files": ["agreement/zz_verif_sm_test.go", "agreement/zz_verif_sm_gen_test.go", "agreement/zz_verif_c02_test.go"],
+        "name": "c02", "pkg": "./agreement/", "run": "^TestVerifC02(Pseudonode)?$",
+        "files": ["agreement/zz_verif_sm_test.go", "agreement/zz_verif_sm_gen_test.go", "agreement/zz_verif_c02_test.go", "agreement/zz_verif_c02p_test.go"],
         "util": [("agreement", "agreement")],
-        "env": {"quick": {"VERIF_C02_N": 30, "VERIF_C02_EVENTS": 36, "VERIF_C02_ATTESTS": 3},
-                "thorough": {"VERIF_C02_N": 500, "VERIF_C02_EVENTS": 50, "VERIF_C02_ATTESTS": 5}},
+        "env": {"quick": {"VERIF_C02P_N": 6, "VERIF_C02P_SLOW": 2, "VERIF_C02_N": 30, "VERIF_C02_EVENTS": 36, "VERIF_C02_ATTESTS": 3},
+                "thorough": {"VERIF_C02P_N": 30, "VERIF_C02P_SLOW": 6, "VERIF_C02_N": 500, "VERIF_C02_EVENTS": 50, "VERIF_C02_ATTESTS": 5}},
         "timeout": {"quick": 900, "thorough": 3000},
         "search_tier": "quick",
     }],
@@ -26,6 +26,11 @@ CONFIG = {
             "and every crash-DB content; spec_ok (observations only) = S1 no two released votes with equal (sender, round, period, step) and "
             "different value, S2 release only by the checkpoint of the own, successfully written request whose row holds the attesting event's "
             "action list, S3 attest-once along every real single run (disk run + continuation). Non-trivial = at least one crash and one released vote.",
+    "rule_part2": "TestVerifC02Pseudonode: the REAL pseudonode (makePseudonode, asyncPseudonode.MakeVotes, pseudonodeVotesTask.execute with real "
+                  "participation keys / VRF / one-time signatures, 10 accounts) is given a persistStateDone channel that is closed after 0-40 ms (ok), "
+                  "stays pending for 2.3 s > maxPseudonodeOutputWaitDuration and is closed then (slow; 2 cases in quick, run in parallel), or delivers "
+                  "an error (err); steps soft/cert/next/next+1/late/down. Observed order of signal / vote / closed events; the model replays "
+                  "[FEv; FWrite ok; FRelease] through DurableFine.fstep; spec_ok = no vote before signal_ok, none after signal_err, no early finish.",
     "exhaustive": {"quick": False, "thorough": False},
     "explanation": "C02_crash_nonequiv / C02_fine_crash_nonequiv: every machine, every interleaving of events, writes, failed writes, checkpoint "
                    "deliveries and crashes (unbounded); premise attest-once of single runs. C02_attest_once: the agreement model, every event "
@@ -42,8 +47,9 @@ CONFIG = {
                     "attest-once for cert / late / redo needs value-consistent thresholds per (round, period) (cons_sc / cons_next, premises of "
                     "C02_attest_once; the quorum-intersection facts of C01); C02_attest_once_redo_needs_consistency shows redo differs without it; "
                     "deadline timeouts arrive at steps < 252 (step++ never reaches late/redo/down), first round > 0, no uint64 wrap-around",
-                    "pseudonodeVotesTask.execute (wait on persistStateDone before writing the votes to the output channel) is mirrored by the "
-                    "harness's fake pseudonode, not executed: real vote making needs participation keys / VRF / one-time signatures",
+                    "pseudonodeVotesTask.execute (wait on persistStateDone before writing the votes to the output channel) is mirrored by a fake "
+                    "pseudonode in the crash-schedule harness and exercised on the REAL pseudonode by TestVerifC02Pseudonode; there the timing is "
+                    "SAMPLED: a release that needs a checkpoint delay other than 0-40 ms / 2.3 s (e.g. a timer longer than 2.3 s) would not be seen",
                     "proposal-votes (step 0: assemble / repropose) are not persisted before release; outside the property's quantifier "
                     "(C02_propose_step_not_persisted); the ledger's NextRound is constant during a case (no 'stale crash state' restart)"],
     "trusted_base": ["modelled: agreement/service.go mainLoop + persistState, persistence.go asyncPersistenceLoop/persist/restore, actions.go attest/"
